@@ -28,7 +28,7 @@
    unbounded naturals (integers for times).  See "parameters at the size of
    their machine types" below for how values beyond TLC's 32-bit integers
    are represented.                                                         *)
-EXTENDS Integers, Sequences, FiniteSets, TLC
+EXTENDS Integers, Sequences, FiniteSets, TLC, SequencesExt
 
 P(k, a, b, of, ad) == [k |-> k, a |-> a, b |-> b, of |-> of, ad |-> ad]
 Above(h)      == P("above", h, 0, <<>>, "")
@@ -135,6 +135,28 @@ VerifyAlg(p, c, sigs, pres) ==
   LET st == Walk(p, c, [ok |-> TRUE, sigs |-> sigs, pres |-> pres, total |-> 0])
   IN st.ok /\ st.sigs = <<>> /\ st.pres = <<>>
 
+\* The key walk of unlock conditions once more, as what it is in the code: a loop over the key list,
+\* i.e. a left fold.  (TLC evaluates a fold iteratively; the recursive form costs it time quadratic in
+\* the length of the list.  PolicySizes walks key lists of thousands of keys with this form; PolicyMC
+\* checks on its whole space that both forms agree.)   acc = [st, need, stop]
+WalkKeysF(keys, need0, st0) ==
+  LET n == Len(keys)
+      step(acc, i) ==
+        IF acc.stop \/ ~acc.st.ok THEN acc
+        ELSE IF acc.need = 0 \/ acc.need > n - i + 1 \/ acc.need > Len(acc.st.sigs) THEN [acc EXCEPT !.stop = TRUE]
+        ELSE LET k == keys[i] IN
+             IF k.a = 1 THEN [acc EXCEPT !.st = Fail(@)]                         \* entropy key
+             ELSE IF k.a = 0 /\ ~SigOK(Head(acc.st.sigs), k.b) THEN acc
+             ELSE [acc EXCEPT !.need = @ - 1, !.st = [@ EXCEPT !.sigs = Tail(@)]]
+      r == FoldLeftDomain(step, [st |-> st0, need |-> need0, stop |-> FALSE], keys)
+  IN IF ~r.st.ok \/ r.need = 0 THEN r.st ELSE Fail(r.st)
+VerifyAlgF(p, c, sigs, pres) ==
+  IF p.k # "uc" THEN VerifyAlg(p, c, sigs, pres)
+  ELSE LET st0 == [ok |-> TRUE, sigs |-> sigs, pres |-> pres, total |-> 0]
+           st1 == Walk(Above(p.a), c, st0)
+           st  == IF ~st1.ok THEN st1 ELSE WalkKeysF(p.of, p.b, st1)
+       IN st.ok /\ st.sigs = <<>> /\ st.pres = <<>>
+
 -----------------------------------------------------------------------------
 (* ---------- declarative meaning ---------- *)
 \* The demand list of a policy under a context: the signatures <<1, key>> and
@@ -185,6 +207,14 @@ Greedy(keys, i, sigs) ==
        ELSE IF KeyAccepts(k, Head(sigs)) THEN 1 + Greedy(keys, i + 1, Tail(sigs))
        ELSE Greedy(keys, i + 1, sigs)
 UCGreedy(keys, sigs) == Greedy(keys, 1, sigs) = Len(sigs)
+\* earliest match as a left fold over the keys: acc = signatures matched so far, -1 once an entropy key
+\* is reached with signatures left
+UCFold(keys, sigs) ==
+  LET m == Len(sigs)
+      step(acc, k) == IF acc < 0 \/ acc >= m THEN acc
+                      ELSE IF k.a = 1 THEN -1
+                      ELSE IF KeyAccepts(k, sigs[acc + 1]) THEN acc + 1 ELSE acc
+  IN FoldLeft(step, 0, keys) = m
 
 \* d = Demands(p, c), hoisted so that a whole row of witnesses shares it
 MeaningD(p, c, d, sigs, pres, UCMatch(_, _)) ==
@@ -196,6 +226,7 @@ MeaningD(p, c, d, sigs, pres, UCMatch(_, _)) ==
           /\ Len(dp) = Len(pres) /\ \A i \in DOMAIN dp : PreOK(pres[i], dp[i][2])
 Meaning(p, c, sigs, pres)  == MeaningD(p, c, Demands(p, c), sigs, pres, UCInjection)
 MeaningG(p, c, sigs, pres) == MeaningD(p, c, Demands(p, c), sigs, pres, UCGreedy)
+MeaningF(p, c, sigs, pres) == MeaningD(p, c, Demands(p, c), sigs, pres, UCFold)
 
 \* can the policy be satisfied at all under c (by witnesses of any kind)?
 Satisfiable(p, c) ==
